@@ -47,7 +47,7 @@ props=[c["property_id"] for c in json.load(open("/verif/MANIFEST.json"))["checks
 os.makedirs("/tmp/trymut_ev/evidence", exist_ok=True)
 sh("cp /verif/known_findings.json /tmp/trymut_ev/")
 rows=[]
-for d in sorted(glob.glob("/verif/seeded/C*-m?")):
+for d in sorted(glob.glob("/verif/seeded/C*-*m?")):
     sid=os.path.basename(d); prop=sid.split("-")[0]
     patch=d+"/patch.diff"
     if sh("git -C /repo status --porcelain").stdout.strip():
@@ -62,6 +62,14 @@ for d in sorted(glob.glob("/verif/seeded/C*-m?")):
             det[p]=rules
     sh("git -C /repo checkout -- .")
     what,needs=SUM.get(sid,("",""))
+    if not what:
+        # second-wave changes: take the summary from the author's notes
+        try:
+            lines=[l.strip(" #*-") for l in open(d+"/notes.md") if l.strip(" #*-\n")]
+            what=lines[0][:200] if lines else ""
+            needs="see notes.md"
+        except Exception:
+            pass
     meta={"id":sid,"breaks_property":prop,"change":what,"needs_to_manifest":needs,
           "origin":"written by an independent sub-agent that saw only the property text and a scratch worktree (nothing from /verif)",
           "confirmed":open(d+"/verified.txt").read().strip().split("\n"),
